@@ -154,11 +154,36 @@ type CertSpec struct {
 	CritOpts    map[string]string `json:"crit_opts,omitempty"`
 }
 
+// KindSK is a security-key (sk-ssh-ed25519@openssh.com) public key: it can be listed and certified, the
+// harness holds no private key for it.
+const KindSK = "sk-ed25519"
+
+// SKPub returns a deterministic security-key public key for a label.
+func SKPub(label string) ssh.PublicKey {
+	h := sha256.Sum256([]byte("verif-sk:" + label))
+	blob := ssh.Marshal(struct {
+		Name        string
+		KeyBytes    []byte
+		Application string
+	}{"sk-ssh-ed25519@openssh.com", h[:], "ssh:"})
+	k, err := ssh.ParsePublicKey(blob)
+	if err != nil {
+		panic(err)
+	}
+	return k
+}
+
 // Cert mints a user certificate for the spec, signed by the Ed25519 CA named
 // CALabel. Ed25519 signatures are deterministic, so equal specs give equal blobs.
 func Cert(s CertSpec) *ssh.Certificate {
+	var subject ssh.PublicKey
+	if s.KeyKind == KindSK {
+		subject = SKPub(s.KeyLabel)
+	} else {
+		subject = Pub(s.KeyKind, s.KeyLabel)
+	}
 	c := &ssh.Certificate{
-		Key:             Pub(s.KeyKind, s.KeyLabel),
+		Key:             subject,
 		Serial:          s.Serial,
 		CertType:        ssh.UserCert,
 		KeyId:           s.KeyID,
